@@ -889,34 +889,73 @@ def is_helper_call(fn, c):
     return gs[0]
 
 
-def sites(fn, pred, depth=2, _seen=()):
-    """Anchors in fn at which `pred` happens: nodes n with pred(fn, n), plus calls to helpers inside which pred
-    happens on EVERY normal path (so the call can stand for the event in must-precede / must-follow rules)."""
-    out = [n for n in fn.all_nodes() if pred(fn, n)]
+def _helpers(fn, depth, _seen):
     if depth <= 0:
-        return out
+        return
     for c in fn.calls():
         g = is_helper_call(fn, c)
         if g is None or g.usr == fn.usr or g.usr in _seen:
             continue
-        inner = sites(g, pred, depth - 1, _seen + (fn.usr,))
+        yield c, g
+
+
+def sites(fn, ev, depth=2, _seen=()):
+    """Anchors in fn at which event `ev` happens. ev(fn) -> list of nodes of fn where it happens directly; added to
+    those are calls to own-object / free repository helpers inside which the event happens on EVERY normal path (so
+    the call can stand for the event in must-precede / must-follow rules)."""
+    out = list(ev(fn))
+    for c, g in _helpers(fn, depth, _seen):
+        inner = sites(g, ev, depth - 1, _seen + (fn.usr,))
         if inner and on_all_paths(g, inner):
             out.append(c)
     return out
 
 
-def sites_any(fn, pred, depth=2, _seen=()):
-    """Like sites() but a helper counts if pred happens on SOME path inside it (for may-rules)."""
-    out = [n for n in fn.all_nodes() if pred(fn, n)]
-    if depth <= 0:
-        return out
-    for c in fn.calls():
-        g = is_helper_call(fn, c)
-        if g is None or g.usr == fn.usr or g.usr in _seen:
-            continue
-        if sites_any(g, pred, depth - 1, _seen + (fn.usr,)):
+def sites_any(fn, ev, depth=2, _seen=()):
+    """Like sites() but a helper counts if the event happens on SOME path inside it (for may-rules)."""
+    out = list(ev(fn))
+    for c, g in _helpers(fn, depth, _seen):
+        if sites_any(g, ev, depth - 1, _seen + (fn.usr,)):
             out.append(c)
     return out
+
+
+def each_followed(fn, evA, evB, depth=2, _seen=()):
+    """(ok, n): every occurrence of event A in fn - directly or inside a helper - is followed by event B on every
+    path to the exit (B may itself be inside a helper). n = number of A occurrences examined."""
+    Bs = sites(fn, evB, depth, _seen)
+    ok, n = True, 0
+    for a in evA(fn):
+        n += 1
+        if not must_follow(fn, a, [b for b in Bs if b is not a]):
+            ok = False
+    for c, g in _helpers(fn, depth, _seen):
+        if not sites_any(g, evA, depth - 1, _seen + (fn.usr,)):
+            continue
+        ok_in, k = each_followed(g, evA, evB, depth - 1, _seen + (fn.usr,))
+        n += k
+        if not ok_in and not must_follow(fn, c, [b for b in Bs if b is not c]):
+            ok = False
+    return ok, n
+
+
+def each_preceded(fn, evA, evB, depth=2, _seen=()):
+    """(ok, n): every occurrence of event B in fn - directly or inside a helper - is preceded (dominated) by an
+    occurrence of event A. n = number of B occurrences examined."""
+    As = sites(fn, evA, depth, _seen)
+    ok, n = True, 0
+    for b in evB(fn):
+        n += 1
+        if not any_precedes(fn, [a for a in As if a is not b], b):
+            ok = False
+    for c, g in _helpers(fn, depth, _seen):
+        if not sites_any(g, evB, depth - 1, _seen + (fn.usr,)):
+            continue
+        ok_in, k = each_preceded(g, evA, evB, depth - 1, _seen + (fn.usr,))
+        n += k
+        if not ok_in and not any_precedes(fn, [a for a in As if a is not c], c):
+            ok = False
+    return ok, n
 
 
 def flat_calls(fn, pred, depth=2, _seen=()):
